@@ -94,4 +94,48 @@ def runHist (steps : List (Nat × Report)) : Hist × List (Option Url × Nat) :=
     let (h', r') := add acc.1 st.1 st.2
     (h', acc.2 ++ [(r'.preferred, h'.prev.length)])) ({}, [])
 
+/-! ### The caller: `Client::get_report`'s bookkeeping around the history function -/
+
+/-- `Client` as far as reports are concerned: `Reports { next_full, prev, last, last_full }`. -/
+structure Caller where
+  hist : Hist := {}
+  /-- `next_full` (`Reports::default()` starts with `true`). -/
+  nextFull : Bool := true
+  /-- `last_full`, an instant in ms (`Reports::default()` takes `Instant::now()`). -/
+  lastFull : Nat := 0
+deriving Repr
+
+/-- `do_full`: major change, pending full report, more than `FULL_REPORT_INTERVAL` since the
+last full report, or the last report saw a captive portal and no UDP. -/
+def doFull (c : Caller) (now : Nat) (isMajor : Bool) : Bool :=
+  isMajor || c.nextFull || decide (now - c.lastFull > fullIntervalMs) ||
+  (match c.hist.last with
+   | some l => !(l.udpV4 || l.udpV6) && l.captive == some true
+   | none => false)
+
+/-- The state update at the start of `get_report`:
+```
+if do_full { self.reports.last = None; self.reports.next_full = false; self.reports.last_full = now; }
+```
+Only these three fields are written; `prev` is not touched. -/
+def begin (c : Caller) (now : Nat) (isMajor : Bool) : Caller :=
+  if doFull c now isMajor then
+    { hist := { c.hist with last := none }, nextFull := false, lastFull := now }
+  else c
+
+/-- `get_report`: bookkeeping, then (after the probe phase produced `finished`) the history
+function.  Returns the new state, the report handed back, and whether the run was full. -/
+def getReport (c : Caller) (now : Nat) (isMajor : Bool) (finished : Report) :
+    Caller × Report × Bool :=
+  let full := doFull c now isMajor
+  let c1 := begin c now isMajor
+  let res := add c1.hist now finished
+  ({ c1 with hist := res.1 }, res.2, full)
+
+/-- Any mix of full and incremental runs on a fresh client (created at instant 0). -/
+def runCaller (steps : List (Nat × Bool × Report)) : Caller × List (Option Url × Nat × Bool) :=
+  steps.foldl (fun acc st =>
+    let r := getReport acc.1 st.1 st.2.1 st.2.2
+    (r.1, acc.2 ++ [(r.2.1.preferred, r.1.hist.prev.length, r.2.2)])) ({}, [])
+
 end IrohModel.C28
